@@ -2,6 +2,7 @@ package guard
 
 import (
 	"fmt"
+	"strings"
 	"go/constant"
 	"go/token"
 	"go/types"
@@ -70,12 +71,7 @@ func Analyze(fn *ssa.Function, root *RootInfo) []Site {
 	if len(fn.Blocks) == 0 {
 		return nil
 	}
-	fi := &fnInfo{fn: fn}
-	if root != nil {
-		fi.rootParam = root.Data
-		fi.rootMin = root.MinLen
-	}
-	computeFacts(fi)
+	fi := infoFor(fn, root)
 	live := LiveBlocks(fn)
 	var sites []Site
 	for _, b := range fn.Blocks {
@@ -152,6 +148,10 @@ func Analyze(fn *ssa.Function, root *RootInfo) []Site {
 				}
 			}
 			if sl == nil {
+				// symbolic requirement: index or high bound that is `base + k`
+				if ss, ok := fi.symSite(ins, b); ok {
+					sites = append(sites, ss)
+				}
 				continue
 			}
 			have := fi.minLen(sl, b, map[ssa.Value]bool{})
@@ -203,6 +203,12 @@ func (fi *fnInfo) classify(s *Site, b *ssa.BasicBlock) {
 			if _, isCall := stripConv(sf.v).(*ssa.Call); isCall {
 				symunk = true
 			}
+			if untrackedLoad(sf.v, 0) {
+				// the guard's integer lives in memory the analysis cannot name (e.g. a field
+				// of a slice element): other conditions on it cannot be linked, so the
+				// knowledge needed for a definite claim is incomplete
+				symunk = true
+			}
 		}
 	}
 	_, isParam := ci.root.(*ssa.Parameter)
@@ -249,13 +255,34 @@ var _ = token.ADD
 // complete and its provenance arbitrary (descends from the root parameter with
 // only recognised guards): only then can a callee's requirement be turned into
 // a definite finding.
-func ArgInfo(fn *ssa.Function, root *RootInfo, arg ssa.Value, at *ssa.BasicBlock) (have int, arbitrary bool) {
+type fiKey struct {
+	fn  *ssa.Function
+	p   *ssa.Parameter
+	min int
+}
+
+var fiCache = map[fiKey]*fnInfo{}
+
+func infoFor(fn *ssa.Function, root *RootInfo) *fnInfo {
+	k := fiKey{fn: fn}
+	if root != nil {
+		k.p, k.min = root.Data, root.MinLen
+	}
+	if fi, ok := fiCache[k]; ok {
+		return fi
+	}
 	fi := &fnInfo{fn: fn}
 	if root != nil {
 		fi.rootParam = root.Data
 		fi.rootMin = root.MinLen
 	}
 	computeFacts(fi)
+	fiCache[k] = fi
+	return fi
+}
+
+func ArgInfo(fn *ssa.Function, root *RootInfo, arg ssa.Value, at *ssa.BasicBlock) (have int, arbitrary bool) {
+	fi := infoFor(fn, root)
 	if !LiveBlocks(fn)[at] {
 		return 1 << 30, false
 	}
@@ -284,12 +311,7 @@ func LoopAdvances(fn *ssa.Function, root *RootInfo) []Advance {
 	if len(fn.Blocks) == 0 {
 		return nil
 	}
-	fi := &fnInfo{fn: fn}
-	if root != nil {
-		fi.rootParam = root.Data
-		fi.rootMin = root.MinLen
-	}
-	computeFacts(fi)
+	fi := infoFor(fn, root)
 	live := LiveBlocks(fn)
 	var out []Advance
 	for _, b := range fn.Blocks {
@@ -399,6 +421,104 @@ func tainted(v ssa.Value, depth int) bool {
 		}
 	case *ssa.Extract:
 		return tainted(x.Tuple, depth+1)
+	}
+	return false
+}
+
+// symSite classifies an access whose requirement is `base + k` for a
+// non-constant base (an offset variable): SAFE-sym when a dominating guard on
+// the same slice establishes len >= base + c with c >= k; DEF when guards on
+// that same base exist, are all understood, and establish less; UNK-sym otherwise.
+func (fi *fnInfo) symSite(ins ssa.Instruction, b *ssa.BasicBlock) (Site, bool) {
+	var sl, req ssa.Value
+	extra := 0
+	what := ""
+	switch x := ins.(type) {
+	case *ssa.IndexAddr:
+		if _, ok := x.X.Type().Underlying().(*types.Slice); !ok {
+			return Site{}, false
+		}
+		if _, isK := constInt(x.Index); isK {
+			return Site{}, false
+		}
+		sl, req, extra, what = x.X, x.Index, 1, "[i]"
+	case *ssa.Slice:
+		if _, ok := x.X.Type().Underlying().(*types.Slice); !ok || x.High == nil {
+			return Site{}, false
+		}
+		if _, isK := constInt(x.High); isK {
+			return Site{}, false
+		}
+		sl, req, what = x.X, x.High, "[..:i]"
+	default:
+		return Site{}, false
+	}
+	base, k, ok := linBase(req, 0)
+	if !ok || base == "" || strings.HasPrefix(base, "len:") {
+		return Site{}, false
+	}
+	k += extra
+	s := Site{Fn: fi.fn, Ins: ins, Slice: sl, Need: k, What: what + fmt.Sprintf(" (offset%+d)", k), Class: "UNK-sym", Why: "no guard on the same offset expression", Root: chainOf(sl).root}
+	bf := fi.facts[b]
+	if bf == nil {
+		return s, true
+	}
+	vk, _ := fi.intKey(sl, b)
+	best := -1 << 30
+	for _, f := range bf.syms {
+		if f.s != sl && f.k != vk {
+			continue
+		}
+		fb, fc, ok := linBase(f.v, 0)
+		if !ok || fb != base {
+			continue
+		}
+		if fc+f.adj > best {
+			best = fc + f.adj
+		}
+	}
+	s.Have = best
+	if best >= k {
+		s.Class, s.Why = "SAFE", ""
+		return s, true
+	}
+	if best == -1<<30 {
+		s.Have = 0
+		return s, true
+	}
+	// a guard on the same base exists but is too weak: definite iff knowledge is complete
+	probe := Site{Fn: fi.fn, Slice: sl, Need: 1 << 30}
+	fi.classify(&probe, b)
+	if probe.Class == "DEF" {
+		s.Class = "DEF"
+		s.Why = fmt.Sprintf("the dominating guard establishes len >= offset%+d but the access needs offset%+d", best, k)
+		s.Guards = probe.Guards
+	} else {
+		s.Why = "guard on the same offset is too weak, but other conditions are not understood (" + probe.Class + ")"
+	}
+	return s, true
+}
+
+func untrackedLoad(v ssa.Value, depth int) bool {
+	if depth > 6 {
+		return true
+	}
+	v = stripConv(v)
+	switch x := v.(type) {
+	case *ssa.UnOp:
+		if x.Op == token.MUL {
+			_, ok := addrKey(x.X)
+			return !ok
+		}
+		return untrackedLoad(x.X, depth+1)
+	case *ssa.BinOp:
+		return untrackedLoad(x.X, depth+1) || untrackedLoad(x.Y, depth+1)
+	case *ssa.Phi:
+		for _, e := range x.Edges {
+			if e != ssa.Value(x) && untrackedLoad(e, depth+1) {
+				return true
+			}
+		}
 	}
 	return false
 }
